@@ -89,11 +89,14 @@ func TValue(v *ast.Value, names map[string]bool) string {
 		return "(TKids " + def + " [" + strings.Join(items, "; ") + "])"
 	}
 	if v.Kind == ast.Variable {
-		exp := ""
+		exp, decl := "None", "None"
 		if v.ExpectedType != nil {
-			exp = v.ExpectedType.String()
+			exp = "(Some " + CoqStr(v.ExpectedType.String()) + ")"
 		}
-		return "(TVar " + CoqStr(v.Raw) + " " + CoqStr(exp) + ")"
+		if v.VariableDefinition != nil && v.VariableDefinition.Type != nil {
+			decl = "(Some " + CoqStr(v.VariableDefinition.Type.String()) + ")"
+		}
+		return "(TVar " + CoqStr(v.Raw) + " " + exp + " " + decl + ")"
 	}
 	return "TLeaf"
 }
